@@ -50,3 +50,49 @@ claim("C20", "pbt E2+E1 (exhaustive 8/16/32-bit sweeps + boundary-dense rapid)",
       "Exploration, exhaustive where the domain is small: Abs/Digits10/DigitsSign10/Clamp01 over every 8/16-bit value (32-bit in thorough), Min/Max/Compare/Less/Sum/Product over every 8-bit pair, Clamp over every 8-bit triple; 64-bit, float, complex and string types via a boundary grid (extremes, powers of ten +-1, +-0, +-Inf, subnormals) plus rapid; utility helpers (Coal, Zero, ZeroOf, IsZero with an IsZero method, Tern, TernCast, Ref, DerefZero, IsNil) via rapid.",
       SEQ_NOTE + " 64-bit and floating-point domains are sampled, not exhausted; NaN, Abs(min signed), Clamp with lo>hi are outside the statement.",
       "DESIGN.md section 6, C20")
+
+CONC_NOTE = "Trusts the Go toolchain/runtime (atomics are sequentially consistent; race detector = happens-before on the schedules that occurred), rapid v1.3.0, the harness's Wing-Gong linearizability checker (cross-checked against porcupine v1.3.0 in its unit test) and the build-tag-guarded hooks in sync2 (add-only; without -tags verif the package is unchanged)."
+
+claim("C03", "pbt E2+E1 (exhaustive subset pairs x build recipes + rapid)",
+      "exhaustive enumeration of all ordered pairs of subsets of a 3-element universe (4 thorough) x 7 construction recipes (internal layouts of the concurrent set) x 7 operations + rapid histories, against a bit-set membership model; detachment checked by mutation",
+      "Exploration: both Set implementations in all four pairings (and self-aliasing); every operation's result, return value and both operands are compared with a membership model; construction histories drive sync2.Map's read/dirty/nil/expunged/promoted layouts (recorded in the histogram); results are mutated to prove they share no state with the operands.",
+      SEQ_NOTE, "DESIGN.md section 6, C03")
+claim("C04", "pbt E1 + E3 controlled scheduler + E4 -race stress",
+      "model-based rapid op lists (sequential) + generated schedules driving the real code hook by hook (controlled scheduler) + free-running goroutines under the race detector; verdict by per-key linearizability checking of the recorded history and a three-clause Range rule",
+      "Exploration of histories AND schedules: the interleaving of sync2.Map's atomic steps is a generated, shrinkable input (E3: 2-4 threads x 1-3 ops over 1-3 keys, setup histories that reach amended/nil/expunged/promoted layouts, <=90 scheduling choices); every recorded history incl. a quiescent postlude must be linearizable per key (exact: linearizability is compositional over keys), Range obeys exactly the three listed clauses; E4 repeats the programs free-running under -race (any DATA RACE report is a violation). Not exhaustive over schedules.",
+      CONC_NOTE + " E3 explores sequentially-consistent interleavings at hook granularity; Go map iteration order inside dirtyLocked/Range is not controlled (verdicts are computed on the history that actually ran; replay retries).",
+      "DESIGN.md section 6, C04")
+claim("C05", "pbt E3 controlled scheduler + E4 -race stress",
+      "generated schedules (controlled scheduler) and free-running -race repetitions of Set programs; verdict by per-value linearizability against a boolean register with existential outcome assignment for AddSet/RemoveSet/Len counts",
+      "Exploration of schedules: Add/Remove/Has/AddSet/RemoveSet/Len programs of 2-4 threads over 1-3 values with generated interleavings; 'successful Adds and Removes alternate starting with an Add, consistently with real time' is exactly per-value linearizability to a boolean register, checked incl. a quiescent postlude (final membership); bulk counts must equal the successes of SOME linearizable per-element assignment.",
+      CONC_NOTE, "DESIGN.md section 6, C05")
+claim("C06", "pbt E1 (lock-step differential vs container/list, container/ring)",
+      "differential testing: rapid operation sequences applied in lock step to lists.List/Ring and the standard library's container/list, container/ring; return values, lengths, capped traversals and every handle's neighbours compared after every operation",
+      "Exploration: 2-3 lists with handle tables (live, removed, foreign, other-list handles; self PushBackList/PushFrontList; zero-value lists) and ring handle tables (nil and zero-value rings, any Link pair, Unlink/Move with any count); one-sided panics are violations, non-terminating structures are caught by step caps / the divergence watchdog.",
+      SEQ_NOTE + " Handles orphaned by Init() of a non-empty list make BOTH implementations misbehave and are excluded by construction (counted).",
+      "DESIGN.md section 6, C06")
+claim("C09", "pbt E3 controlled scheduler + E4 -race stress",
+      "generated section programs and schedules on KeyedMutex/KeyedRWMutex under the controlled scheduler with a per-key phase book (exclusion, Try* semantics, cross-key independence via blocked-thread analysis) + free-running -race stress with plain per-key counters",
+      "Exploration of schedules: 2-4 threads x nested Lock/TryLock/RLock/TryRLock sections on 1-3 never-seen keys (programs cannot deadlock on a correct implementation by construction), <=120 scheduling choices; never two incompatible holders; Try* false only with an incompatible section present during the call; a thread found blocked at a key-lock hook needs an incompatible holder of THAT key; Try* never blocked in sync.*; no deadlock/panic/fatal error; E4: plain counters under -race + occupancy asserts.",
+      CONC_NOTE + " A waiting RWMutex writer is parked before calling Lock in E3, so writer preference inside sync.RWMutex is exercised by E4 only. ClearKey only in quiescence, as the statement restricts.",
+      "DESIGN.md section 6, C09")
+claim("C10", "pbt E5 (scenario scripts with harness-controlled receivers; crash-prone class in child processes)",
+      "rapid-generated scripts of publish/subscribe/unsubscribe steps with drain/gated/never receivers; conservation (exactly-once), order, return-after-hand-off (goroutine-state classifier, no timers as verdicts), timeout accounting, Unsub/WithOnly semantics; known crash class isolated in child processes",
+      "Exploration: scripts over all six publish variants, Sub/SubBuf, Unsub (known/removed/foreign/nil), UnsubAll, WithOnly, three timeout configs; each channel's receiver log is compared with what was published to it while subscribed (exactly once, nothing else, Sync order); Wait/Sync returns are checked against buffers / observed blocked until the harness opens a gate; 'lost' is declared only when no PubSub goroutine is in flight. The known finding (Unsub vs in-flight async send => send on closed channel) is excluded by construction from the main search and re-demonstrated in child processes on every run.",
+      "Trusts Go channels/timers (not controlled: async sends are awaited, not scheduled), the goroutine-state parser, and that the harness's own goroutines are leak-free between cases. Liveness ('eventually') is only decided in the negative when nothing is in flight.",
+      "DESIGN.md section 6, C10")
+claim("C17", "pbt E4 (free-running under -race with a harness gate inside the action)",
+      "rapid scenarios of concurrent and late Do callers with per-caller functions held open by a harness gate; exactly-one-invocation, shared results, no return before completion, visibility via a plain flag under the race detector",
+      "Exploration: Once1/2/3 x 1-8 early callers x 0-4 late callers x GOMAXPROCS/stagger; while the harness keeps the action's gate closed no Do may have returned and no second function may have started (sound: asserted only on observation); afterwards all callers hold the invoked function's values and read a plain completion flag (race detector proves the happens-before edge).",
+      "sync.Once's internals are not instrumented: windows inside a single call are reached by free-running repetition only. " + CONC_NOTE,
+      "DESIGN.md section 6, C17")
+claim("C18", "pbt E1 + E4 -race stress",
+      "sequential register model (rapid op lists) + linearizability checking of free-running -race histories for AtomicValue; ownership tokens with CAS marks and plain fields under -race for Pool",
+      "Exploration: AtomicValue[T] for int/string/struct against the register model sequentially, and 2-6 goroutines x 1-4 ops x 60 repetitions checked for linearizability (torn/invented values impossible codes); Pool: each Get must CAS the token's owner mark 0->1 (double hand-out fails), plain writes while held, any race report is a violation. This check found a genuine defect (CompareAndSwap failing while current == old), fixed in /repo.",
+      "stdlib wrappers are not instrumented: windows inside one call are reached by repetition only. " + CONC_NOTE,
+      "DESIGN.md section 6, C18")
+claim("C19", "pbt E2 + E5 (exhaustive queued grid + timed scenarios with gates)",
+      "exhaustive enumeration of capacity x fill x closed x limit for RecvQueued/RecvQueuedFull + rapid scenarios of the timed/context helpers with none/gated/racing peers; conservation oracle on the far side of the channel; blocking established from goroutine state",
+      "Exploration, exhaustive for the queued helpers on the small grid: results must be exactly the first min(fill,limit) queued values, the rest still queued, no zero padding after close, never blocking. Timed helpers: true <=> the value is found exactly once on the far side, false <=> not found / nothing consumed; forced outcomes in asymmetric classes; 'must wait' asserted only while the harness itself withholds the peer; either outcome where operation and limit can both be ready.",
+      "Trusts Go channels/timers and the goroutine-state parser; racing classes accept either outcome and only check conservation.",
+      "DESIGN.md section 6, C19")
